@@ -6,9 +6,12 @@ Require Import LV.Base.CField LV.Base.QcI LV.Lin.MatL LV.Lin.LuModel LV.Conv.Con
 Definition Qc_ltb (x y : Qc) : bool := if Qclt_le_dec x y then true else false.
 
 (* How the squared row-scale factor is obtained from the squared row maximum.
-   src/vnacommon_lu.c: "row_scale[i] = max"  => identity.  (Kept next to the instantiation so
-   that a change of the C statement has exactly one place to follow.) *)
-Definition row_scale_of_max (m : Qc) : Qc := m.
+   src/vnacommon_lu.c: "row_scale[i] = 1.0 / max"  => reciprocal (of the squares here).
+   For an all-zero row C has 1/0 = inf and inf * 0 = NaN, which never compares greater; in Qc
+   1/0 = 0 and the metric is 0, which never compares greater either: the row is never preferred.
+   (Kept next to the instantiation so that a change of the C statement has one place to follow;
+   the pivot-order correspondence of C19 is what checks it.) *)
+Definition row_scale_of_max (m : Qc) : Qc := (/ m)%Qc.
 
 Definition q_lu := lu QIF Qc qi_nrm Qcmult Qc_ltb 0%Qc row_scale_of_max.
 Definition q_mldivide := mldivide QIF Qc qi_nrm Qcmult Qc_ltb 0%Qc row_scale_of_max.
